@@ -30,6 +30,9 @@ def tasks(tier, seed):
                            fuc=['segno.encoder.write_terminator', 'segno.encoder.write_padding_bits',
                                 'segno.encoder.write_pad_codewords', 'segno.encoder.Buffer.extend',
                                 'segno.encoder.Buffer.__len__']))
+    from . import glue, c03
+    ts += glue.glue_tasks('C13')
+    ts += [t for t in c03.tasks(tier, seed, prefix='C13') if t.func == 'task_final_message']   # remainder bits
     return ts
 
 
